@@ -1042,6 +1042,60 @@ theorem expandSources_lower {cx : LCtx} {sc : Scopes} {d : List (Nat × Ty)} {gi
     exact ⟨lowerFields_append hk.1 ih1, by rw [fragFields_append, hk.2, ih2]; rfl⟩
 
 
+/-! ## `substruct` and `as` -/
+
+theorem pickFields_ok {fs : List (Nat × Val)} : ∀ (d : List (Nat × Ty)),
+    (∀ f ∈ d, ∃ w, getField fs f.1 = some w ∧ w.fitsType f.2 = true) →
+    ∃ kvs, pickFields fs d = some kvs ∧ kvs.map (·.1) = d.map (·.1) ∧
+      ∀ kv ∈ kvs, ∃ t, (kv.1, t) ∈ d ∧ getField fs kv.1 = some kv.2 ∧ kv.2.fitsType t = true
+  | [], _ => ⟨[], rfl, rfl, by simp⟩
+  | (k, t) :: rest, h => by
+    obtain ⟨w, hw, hfit⟩ := h (k, t) (List.mem_cons_self ..)
+    obtain ⟨kvs, hk, hmap, hall⟩ := pickFields_ok rest (fun f hf => h f (List.mem_cons_of_mem _ hf))
+    refine ⟨(k, w) :: kvs, by simp [pickFields, hw, hk, hfit], by simp [hmap], ?_⟩
+    intro kv hkv
+    rcases List.mem_cons.mp hkv with rfl | hkv'
+    · exact ⟨t, List.mem_cons_self .., hw, hfit⟩
+    · obtain ⟨t', hm, h1, h2⟩ := hall kv hkv'
+      exact ⟨t', List.mem_cons_of_mem _ hm, h1, h2⟩
+
+theorem fldInv_set {p : Program} {d : List (Nat × Ty)} {afs : List (Nat × Val)} {k : Nat} {v : Val}
+    (hinv : FldInv p d afs) (hwf : v.wf p) (hty : ∀ q, d.find? (·.1 == k) = some q → v.fitsType q.2 = true) :
+    FldInv p d (setField afs k v) := by
+  refine ⟨wfFields_set hinv.1 hwf, ?_⟩
+  intro k2 w hw q hq
+  by_cases hk : k2 = k
+  · subst hk
+    rw [getField_setField_same] at hw
+    simp only [Option.some.injEq] at hw; subst hw
+    exact hty q hq
+  · rw [getField_setField_other _ _ _ _ hk] at hw
+    exact hinv.2 k2 w hw q hq
+
+theorem foldl_setField {p : Program} {d : List (Nat × Ty)} : ∀ (kvs : List (Nat × Val)) (acc : List (Nat × Val)),
+    FldInv p d acc → (∀ kv ∈ kvs, kv.2.wf p ∧ ∀ q, d.find? (·.1 == kv.1) = some q → kv.2.fitsType q.2 = true) →
+    FldInv p d (kvs.foldl (fun acc kv => setField acc kv.1 kv.2) acc) ∧
+      ∀ k, ((getField acc k).isSome = true ∨ k ∈ kvs.map (·.1)) →
+        (getField (kvs.foldl (fun acc kv => setField acc kv.1 kv.2) acc) k).isSome = true
+  | [], acc, hinv, _ => ⟨hinv, by intro k hk; simpa using hk⟩
+  | kv :: kvs, acc, hinv, h => by
+    obtain ⟨hw, ht⟩ := h kv (List.mem_cons_self ..)
+    obtain ⟨h1, h2⟩ := foldl_setField kvs (setField acc kv.1 kv.2) (fldInv_set hinv hw ht)
+      (fun x hx => h x (List.mem_cons_of_mem _ hx))
+    refine ⟨h1, ?_⟩
+    intro k hk
+    apply h2
+    by_cases hkk : k = kv.1
+    · subst hkk; left; rw [getField_setField_same]; rfl
+    · rcases hk with hk | hk
+      · left; rw [getField_setField_other _ _ _ _ hkk]; exact hk
+      · right
+        simp only [List.map_cons, List.mem_cons] at hk
+        rcases hk with hk | hk
+        · exact absurd hk hkk
+        · exact hk
+
+
 theorem snd_e {cx : LCtx} {p : Program} {n : Nat} (hC : Ctx cx p) (ih : Snd cx p n) :
     ∀ rt sc e e' t env log, fragE e = true → lowerExpr (cx.withRet rt) sc e = some (e', t) → rt.neverFree = true →
     EnvOk p sc env → ROk (FitV p t) (FitV p rt) (evalExpr p (n + 1) env log e') := by
@@ -1061,7 +1115,7 @@ theorem snd_e {cx : LCtx} {p : Program} {n : Nat} (hC : Ctx cx p) (ih : Snd cx p
     have hlt : i < vs.length := by
       have := indexOf_spec hi
       exact (List.getElem?_eq_some_iff.mp this).1
-    exact fit_enum_mk (q := (k, vs)) (by rw [← hC.hE]; exact hfind) (Int.ofNat_zero_le i) (Int.ofNat_lt.mpr hlt)
+    exact fit_enum_mk (q := (k, vs)) (by rw [← hC.hE]; exact hfind) (Int.natCast_nonneg i) (Int.ofNat_lt.mpr hlt)
   | var x =>
     simp only [lowerExpr, Option.map_eq_some_iff, Prod.mk.injEq] at hl
     obtain ⟨t', hg, rfl, rfl⟩ := hl
@@ -1390,7 +1444,99 @@ theorem snd_e {cx : LCtx} {p : Program} {n : Nat} (hC : Ctx cx p) (ih : Snd cx p
       obtain ⟨env', hba, henv'⟩ := bindArm_ok (p := p) (hC.hG.withRet rt) hpat hfp hsc (hmono v ihs) hbind henv
       simp only [hba]
       exact (ih.e rt sc' body body' bt env' l' hfb hbody hrt henv').mono (fun v hv => hres v hv) (fun _ h => h)
-  | cast _ _ | substruct _ _ => simp [fragE] at hf
+  | substruct a sub =>
+    inv_low hl
+    simp only [Option.some.injEq, Prod.mk.injEq] at hl
+    obtain ⟨rfl, rfl⟩ := hl
+    rename_i sd hsd _ a' ln ha _ ld hld hchk
+    simp only [fragE] at hf
+    have iha := ih.e rt sc a a' _ env log hf ha hrt henv
+    have hpsd := hC.hS sub sd hsd
+    simp only [evalExpr, hpsd]
+    res_cases iha of evalExpr _ _ _ _ _
+    rename_i v l
+    obtain ⟨fs, rfl, ⟨d', hd', hall⟩, hwf⟩ := fit_struct iha
+    rw [hC.hS ln ld hld] at hd'; cases hd'
+    have hsrc : ∀ f ∈ sd, ∃ w, getField fs f.1 = some w ∧ w.fitsType f.2 = true := by
+      intro f hf'
+      have := List.all_eq_true.mp hchk f hf'
+      obtain ⟨g, hg, hgf⟩ := List.any_eq_true.mp this
+      simp only [Bool.and_eq_true, beq_iff_eq] at hgf
+      obtain ⟨w, hw, hwfit⟩ := hall g hg
+      rw [hgf.1] at hw
+      rw [matchesT_eq hgf.2] at hwfit
+      exact ⟨w, hw, hwfit⟩
+    obtain ⟨kvs, hpick, hmap, hkv⟩ := pickFields_ok sd hsrc
+    simp only [hpick]
+    have hnd := hC.hSnd sub sd hpsd
+    obtain ⟨hinv, hpres⟩ := foldl_setField (p := p) (d := sd) kvs []
+      ⟨by simp [wfFields], by intro k v h; simp [getField] at h⟩
+      (by
+        intro kv hm
+        obtain ⟨t, hmem, hget, hfit⟩ := hkv kv hm
+        refine ⟨wfFields_get hwf hget, ?_⟩
+        intro q hq
+        have := findTy_of_nodup hnd hmem
+        simp only at this
+        rw [this] at hq; cases hq; exact hfit)
+    refine ⟨by simp [structOfPairs, Val.fitsType], ?_⟩
+    simp only [structOfPairs, Val.wf]
+    refine ⟨⟨sd, hpsd, ?_⟩, hinv.1⟩
+    intro q hq
+    have hsome := hpres q.1 (Or.inr (by rw [hmap]; exact List.mem_map.mpr ⟨q, hq, rfl⟩))
+    obtain ⟨w, hw⟩ := Option.isSome_iff_exists.mp hsome
+    exact ⟨w, hw, hinv.2 q.1 w hw q (findTy_of_nodup hnd hq)⟩
+  | cast a to =>
+    inv_low hl
+    simp only [Option.some.injEq, Prod.mk.injEq] at hl
+    obtain ⟨rfl, rfl⟩ := hl
+    rename_i rd hrd _ a' ln ha _ ld hld hchk
+    simp only [fragE] at hf
+    simp only [Bool.and_eq_true, beq_iff_eq] at hchk
+    obtain ⟨hlen, hchk⟩ := hchk
+    have iha := ih.e rt sc a a' _ env log hf ha hrt henv
+    have hprd := hC.hS to rd hrd
+    have hpld := hC.hS ln ld hld
+    simp only [evalExpr]
+    res_cases iha of evalExpr _ _ _ _ _
+    rename_i v l
+    obtain ⟨fs, rfl, ⟨d', hd', hall⟩, hwf⟩ := fit_struct iha
+    rw [hpld] at hd'; cases hd'
+    have hndl := hC.hSnd ln ld hpld
+    have hndr := hC.hSnd to rd hprd
+    -- every field of the target definition is a field of the source definition, same type
+    have hcov : ∀ g ∈ rd, ∃ w, getField fs g.1 = some w ∧ w.fitsType g.2 = true := by
+      intro g hg
+      have hsub : ∀ x ∈ ld.map (·.1), x ∈ rd.map (·.1) := by
+        intro x hx
+        obtain ⟨f, hf', rfl⟩ := List.mem_map.mp hx
+        have := List.all_eq_true.mp hchk f hf'
+        obtain ⟨g', hg', hgf⟩ := List.any_eq_true.mp this
+        simp only [Bool.and_eq_true, beq_iff_eq] at hgf
+        exact List.mem_map.mpr ⟨g', hg', hgf.1⟩
+      have hin := subset_of_nodup_length hndl hsub (by simp [hlen]) g.1 (List.mem_map.mpr ⟨g, hg, rfl⟩)
+      obtain ⟨f, hf', hfg⟩ := List.mem_map.mp hin
+      have := List.all_eq_true.mp hchk f hf'
+      obtain ⟨g', hg', hgf⟩ := List.any_eq_true.mp this
+      simp only [Bool.and_eq_true, beq_iff_eq] at hgf
+      have hgg : g' = g := by
+        have h1 := findTy_of_nodup hndr hg'
+        have h2 := findTy_of_nodup hndr hg
+        rw [hgf.1, hfg] at h1
+        rw [h1] at h2; cases h2; rfl
+      subst hgg
+      obtain ⟨w, hw, hwfit⟩ := hall f hf'
+      rw [hfg] at hw
+      exact ⟨w, hw, by rw [← matchesT_eq hgf.2]; exact hwfit⟩
+    have hcast : castOk fs rd = true := by
+      simp only [castOk, List.all_eq_true]
+      intro g hg
+      obtain ⟨w, hw, hwfit⟩ := hcov g hg
+      simp only [hw]; exact hwfit
+    simp only [hprd, hcast, if_true]
+    refine ⟨by simp [Val.fitsType], ?_⟩
+    simp only [Val.wf]
+    exact ⟨⟨rd, hprd, hcov⟩, hwf⟩
 
 theorem snd_args {cx : LCtx} {p : Program} {n : Nat} (ih : Snd cx p n) :
     ∀ rt sc pts es es' env log, fragArgs es = true → pts.length = es.length →
